@@ -71,7 +71,7 @@ func c11Expect(n *canon.Node) (*canon.Node, [][]any) {
 
 type c11Step struct {
 	field  universe.Field
-	inList int // 0 = directly, 1 = [node, iri], 2 = [iri, node], 3 = [node]
+	inList int    // 0 = directly, 1 = [node, iri], 2 = [iri, node], 3 = [node]
 	node   string // struct name of the node placed at this step
 	value  bool   // place the node by value (control)
 }
